@@ -151,6 +151,64 @@ func checkC04(c *Ctx) {
 		}
 	}
 	Parallel(len(fj), 8, func(i int) { runC04Faulty(c, fj[i].n, fj[i].t, fj[i].D, fj[i].kind, c.Seed*149+uint64(i)) })
+	// (f) participants whose names are near-duplicates (case, surrounding whitespace, a common prefix):
+	// every deal still opens under its addressee's key only
+	nameSets := [][]string{{"Alice", "alice", "bob"}, {"carol", "carol ", "CAROL", " carol"}, {"node", "node_", "node_1", "Node_1"}}
+	Parallel(len(nameSets), 4, func(i int) { runC04Names(c, nameSets[i], c.Seed*151+uint64(i)) })
+}
+
+func runC04Names(c *Ctx, names []string, seed uint64) {
+	n, t := len(names), 2
+	wit := map[string]interface{}{"names": names, "t": t, "case_seed": seed}
+	w, err := world.NewWorld(world.Options{N: n, T: t, Seed: seed, Names: names})
+	if err != nil {
+		c.Inconclusive("world: %v", err)
+		return
+	}
+	ce := &Ceremony{W: w, N: n, T: t}
+	defer ce.Close()
+	suite := oracle.NewSuite()
+	sks := make([]kyber.Scalar, n)
+	for i, nd := range w.Nodes {
+		sks[i] = oracle.LongTermKey(oracle.SeedFromMnemonic(nd.Mnemonic))
+		if !suite.Point().Mul(sks[i], nil).Equal(nd.Cold.GetPubKey()) {
+			c.Inconclusive("long-term key of %q does not validate", nd.Name)
+			return
+		}
+	}
+	if ce.Round, err = w.StartDKG(0, t, now()); err != nil {
+		c.Inconclusive("start with names %q: %v", names, err)
+		return
+	}
+	w.Run(world.RandomPolicy, 6000)
+	deals := 0
+	for _, m := range BoardMsgs(w, ce.Round, EvDeal) {
+		var r requests.DKGProposalDealConfirmationRequest
+		if json.Unmarshal(m.Data, &r) != nil || string(r.Deal) == "self-confirm" {
+			continue
+		}
+		deals++
+		for i, nd := range w.Nodes {
+			_, err := ecies.Decrypt(suite, sks[i], r.Deal, suite.Hash)
+			c.Eval(1)
+			if nd.Name == m.RecipientAddr {
+				if err != nil {
+					c.Violate("C04/addressee-cannot-open-its-deal", fmt.Sprintf("%q -> %q: %v", m.SenderAddr, m.RecipientAddr, err), wit)
+				}
+			} else if err == nil {
+				c.Violate("C04/deal-opens-under-a-non-addressee-key", fmt.Sprintf("deal %q -> %q opens under the key of %q", m.SenderAddr, m.RecipientAddr, nd.Name), wit)
+			} else {
+				c.Add("deal_openings_refused_for_non_addressee", 1)
+			}
+		}
+	}
+	c.Distinct(fmt.Sprintf("near-duplicate-names|%q", names))
+	c.Add("deals_between_near_duplicate_names", deals)
+	if deals == 0 {
+		c.Inconclusive("no deal was posted with names %q (states %v)", names, ce.States())
+	} else if !ce.AllIn(StIdle) {
+		c.Note("names %q: ceremony ended %v", names, ce.States())
+	}
 }
 
 // runC04Faulty: dealer D's broadcast commitment list is rewritten between its machine and its node.
